@@ -77,11 +77,37 @@ def run_c04(ctx: Ctx) -> Report:
         rep.violations.append(Violation(f"C04:production_policy:{cases[i]['env']}:" + "+".join(clauses),
                                         f"real PPO rollout with MLPActorCriticPolicy on {cases[i]['env']}: {clauses}; {traces[i]['meta']}",
                                         "real_policy", cases[i]))
+    # a policy whose law AND value depend on its carried state, under action masks (lvf/drive_identity.py): every stored reward is
+    # recomputed from its own row (env reward + gamma * V(successor; the state the policy carries there) on truncation only)
+    from .. import drive_identity as di
+    icases = [dict(algo=a, N=n, T=8, masked=m, stateful=True, seed=ctx.rng.randrange(10 ** 6))
+              for a in ("PPO", "A2C", "REINFORCE") for (n, m) in ((2, True), (1, False)) for _ in range(ctx.pick(2, 6))]
+    items = [di.identity_case(c["algo"], c["N"], c["T"], c["masked"], c["stateful"], c["seed"]) for c in icases]
+    iv = tracecheck.validate(ctx, "trace/Trace_Atoms.tla", [{"atoms": it["atoms"]} for it in items], "stateful_policy")
+    rep.traces += len(items)
+    boots = sum(it["truncation_only_rows"] for it in items)
+    rep.parts["C2S_stateful_masked_policy_rollouts"] = {"rollouts": len(items), "rows_ended_by_truncation_only": boots,
+                                                        "accepted": len(iv.accepted), "rejected": len(iv.rejected)}
+    if boots < 5:
+        from ..core import Machinery
+        raise Machinery("C04: the stateful-policy rollouts contain fewer than 5 rows ended by truncation only (vacuity guard)")
+    for i, (l, clauses) in sorted(iv.rejected.items()):
+        rep.violations.append(Violation(f"C04:stateful_policy:{icases[i]['algo']}:" + "+".join(clauses),
+                                        f"real {icases[i]['algo']} rollout with a stateful, masked policy ({items[i]['kind']}): {clauses}",
+                                        "stateful_policy", icases[i]))
     return rep
 
 
 def replay(ctx: Ctx, driver: str, case: dict) -> Report:
     rep = Report()
+    if driver == "stateful_policy":
+        from .. import drive_identity as di
+        it = di.identity_case(case["algo"], case["N"], case["T"], case["masked"], case["stateful"], case["seed"])
+        v = tracecheck.validate(ctx, "trace/Trace_Atoms.tla", [{"atoms": it["atoms"]}], "replay")
+        for i, (l, clauses) in v.rejected.items():
+            rep.violations.append(Violation(f"C04:stateful_policy:{case['algo']}:" + "+".join(clauses), it["kind"], driver, case))
+        rep.traces = 1
+        return rep
     tr = record(case["env"], case["N"], case["steps"], case["seed"])
     v = tracecheck.validate(ctx, "trace/Trace_Atoms.tla", [tr], "replay")
     for i, (l, clauses) in v.rejected.items():
